@@ -161,8 +161,34 @@ fn damage_blind(bytes: &mut Vec<u8>, op: &Value) -> bool {
     }
 }
 
+/// generation number of each object, from the `N G obj` headers of the intact file
+fn generations(b: &[u8]) -> std::collections::BTreeMap<u32, u16> {
+    let mut m = std::collections::BTreeMap::new();
+    let mut i = 0;
+    while i + 4 <= b.len() {
+        if &b[i..i + 4] == b" obj" {
+            let mut j = i;
+            while j > 0 && b[j - 1].is_ascii_digit() { j -= 1; }
+            if j > 0 && b[j - 1] == b' ' && j < i {
+                let mut k = j - 1;
+                while k > 0 && b[k - 1].is_ascii_digit() { k -= 1; }
+                let n = std::str::from_utf8(&b[k..j - 1]).ok().and_then(|s| s.parse::<u32>().ok());
+                let g = std::str::from_utf8(&b[j..i]).ok().and_then(|s| s.parse::<u16>().ok());
+                if let (Some(n), Some(g)) = (n, g) {
+                    m.insert(n, g);
+                }
+            }
+        }
+        i += 1;
+    }
+    m
+}
+
+thread_local! { static GENS: std::cell::RefCell<std::collections::BTreeMap<u32, u16>> = const { std::cell::RefCell::new(std::collections::BTreeMap::new()) }; }
+
 fn view(bytes: &[u8], numbers: &[u32], opts: ParseOptions) -> Value {
     let b = bytes.to_vec();
+    let gens = GENS.with(|g| g.borrow().clone());
     let nums = numbers.to_vec();
     let (tx, rx) = std::sync::mpsc::channel();
     std::thread::spawn(move || {
@@ -173,7 +199,7 @@ fn view(bytes: &[u8], numbers: &[u32], opts: ParseOptions) -> Value {
             };
             let mut objs = serde_json::Map::new();
             for n in nums {
-                match reader.get_object(n, 0) {
+                match reader.get_object(n, gens.get(&n).copied().unwrap_or(0)) {
                     Ok(o) => { objs.insert(n.to_string(), pobj_json(o)); }
                     Err(e) => { objs.insert(n.to_string(), json!({"t": "error", "msg": e.to_string()})); }
                 }
@@ -232,10 +258,30 @@ fn run(a: &Args) {
             "data": b"0 0 m 10 10 l S\n(12 0 obj) Tj\n9 0 obj\n<</Type/Catalog/Pages 99 0 R/Decoy true>>\nendobj\n3 0 obj\n<</Type/Page/Decoy true>>\nendobj\n".to_vec(), "filter": null});
         let plan2 = json!({"version": "1.4", "revisions": [{"objects": objects2, "free": [], "xref": "table", "trailer": [["Root", {"ref": [9, 0]}]]}]});
         bases.push(("decoy".to_string(), crate::synth::build(&plan2).bytes));
+        // the compact file with a lone CARRIAGE RETURN as end-of-line marker throughout (7.2.3 allows CR, LF or CR LF; only the
+        // `stream` keyword must be followed by LF or CR LF), byte for byte as long as the original
+        let mut cr = crate::synth::build(&plan).bytes;
+        for i in 0..cr.len() {
+            if cr[i] == b'\n' && !(i >= 6 && &cr[i - 6..i] == b"stream" && !(i >= 9 && &cr[i - 9..i - 6] == b"end")) {
+                cr[i] = b'\r';
+            }
+        }
+        bases.push(("cr_only".to_string(), cr));
+        // an object with a non-zero generation number, referenced with it
+        let objects3 = vec![
+            json!({"n": 1, "g": 0, "value": raw("<</Type/Catalog/Pages 2 0 R>>")}),
+            json!({"n": 2, "g": 0, "value": raw("<</Type/Pages/Kids[3 0 R]/Count 1>>")}),
+            json!({"n": 3, "g": 0, "value": raw("<</Type/Page/Parent 2 0 R/MediaBox[0 0 200 100]/Contents 4 2 R/Annots 5 7 R>>")}),
+            json!({"n": 4, "g": 2, "dict": {"d": []}, "data": b"0 0 m 10 10 l S".to_vec(), "filter": null}),
+            json!({"n": 5, "g": 7, "value": raw("[]")}),
+        ];
+        let plan3 = json!({"version": "1.4", "revisions": [{"objects": objects3, "free": [], "xref": "table", "trailer": [["Root", {"ref": [1, 0]}]]}]});
+        bases.push(("generations".to_string(), crate::synth::build(&plan3).bytes));
     }
     let mut case = 0usize;
     for (bi, (bname, base)) in bases.iter().enumerate() {
         let numbers = crate::c03::object_numbers(base);
+        GENS.with(|g| *g.borrow_mut() = generations(base));
         let intact = view(base, &numbers, ParseOptions::lenient());
         out.line(&json!({"ev": "base", "name": bname, "bytes": base, "intact": intact}));
         out.line(&json!({"ev": "chk_base"}));
